@@ -197,13 +197,20 @@ func cmdConcReplay(args []string) {
 		}
 	}
 	f.Close()
-	seq := map[int]string{}
-	for i, j := range concJobs {
-		seq[i] = runJob(j, nil, 0)
-	}
+	// no warm-up: nothing of the library has run in this process before the first replay (a lazily
+	// initialised table would be written by the replayed goroutines); the sequential reference is
+	// computed afterwards
 	rec := NewRecorder()
 	rng := newRand(4400)
 	gated, ungated := 0, 0
+	type pending struct {
+		sched []int
+		gated bool
+		a, b  int
+		res   []string
+		src   string
+	}
+	var pend []pending
 	for si, sched := range scheds {
 		for p := 0; p < *npairs; p++ {
 			a, b := rng.Intn(len(concJobs)), rng.Intn(len(concJobs))
@@ -231,17 +238,24 @@ func cmdConcReplay(args []string) {
 			} else {
 				gated++
 			}
-			type ev struct {
-				K      string   `json:"k"`
-				Sched  []int    `json:"sched"`
-				Gated  bool     `json:"gated"`
-				Jobs   []string `json:"jobs"`
-				Res    []string `json:"res"`
-				SeqRes []string `json:"seq"`
-			}
-			rec.Add(evBody(ev{"sched", sched, !g.aborted, []string{concJobs[a].s, concJobs[b].s}, []string{asciiSafe(res[1]), asciiSafe(res[2])},
-				[]string{asciiSafe(seq[a]), asciiSafe(seq[b])}}), fmt.Sprintf("schedule %d pair %d", si, p))
+			pend = append(pend, pending{sched, !g.aborted, a, b, []string{asciiSafe(res[1]), asciiSafe(res[2])}, fmt.Sprintf("schedule %d pair %d", si, p)})
 		}
+	}
+	seq := map[int]string{}
+	for i, j := range concJobs {
+		seq[i] = runJob(j, nil, 0)
+	}
+	type ev struct {
+		K      string   `json:"k"`
+		Sched  []int    `json:"sched"`
+		Gated  bool     `json:"gated"`
+		Jobs   []string `json:"jobs"`
+		Res    []string `json:"res"`
+		SeqRes []string `json:"seq"`
+	}
+	for _, p := range pend {
+		rec.Add(evBody(ev{"sched", p.sched, p.gated, []string{concJobs[p.a].s, concJobs[p.b].s}, p.res,
+			[]string{asciiSafe(seq[p.a]), asciiSafe(seq[p.b])}}), p.src)
 	}
 	s := rec.Flush(flagOut, "conc-replay", 2)
 	s.Extra = map[string]any{"schedules": len(scheds), "replays_gated": gated, "replays_ungated": ungated}
@@ -344,14 +358,8 @@ func cmdConcStress(args []string) {
 		before[i] = h.snapshot()
 	}
 	tabBefore := tablesDigest()
-	// sequential reference first
-	ref := make([][]string, *ng)
-	for g := range progs {
-		for _, o := range progs[g] {
-			ref[g] = append(ref[g], doOp(o))
-		}
-	}
-	// concurrent run
+	// concurrent run FIRST, without any warm-up of display names, reports or templates in this process (a table
+	// filled on first use would be written during the concurrent phase); the sequential reference follows
 	got := make([][]string, *ng)
 	var wg sync.WaitGroup
 	start := make(chan struct{})
@@ -376,6 +384,12 @@ func cmdConcStress(args []string) {
 	}
 	close(start)
 	wg.Wait()
+	ref := make([][]string, *ng)
+	for g := range progs {
+		for _, o := range progs[g] {
+			ref[g] = append(ref[g], doOp(o))
+		}
+	}
 	rec := NewRecorder()
 	type cev struct {
 		K   string `json:"k"`
